@@ -424,6 +424,76 @@ class SelfObj(Record):
     """the object whose method is interpreted: the fields the rule fixes (and those the interpreted code stores); any other attribute is an uninterpreted value."""
 
 
+class ClsVal:
+    """a class of the repository as a value: what type(<object of the model>) yields and what isinstance(...) is asked with."""
+    __slots__ = ("node",)
+
+    def __init__(self, node):
+        self.node = node
+
+    def __eq__(self, o):
+        return isinstance(o, ClsVal) and o.node is self.node
+
+    def __hash__(self):
+        return hash(id(self.node))
+
+    def __repr__(self):
+        return f"<class {self.node.name}>"
+
+
+def _class_functions(cls_node):
+    """{name: FunctionDef} of a class body; of a property's getter / setter pair the getter."""
+    out = {}
+    for n in cls_node.body:
+        if isinstance(n, ast.FunctionDef) and not (n.name in out and any(isinstance(d_, ast.Attribute) and d_.attr in ("setter", "deleter") for d_ in n.decorator_list)):
+            out[n.name] = n
+    return out
+
+
+class Inst(Record):
+    """an object of a model class of the repository, built by interpreting the class's own __init__: its attributes are the fields the constructor stores; properties and plain
+    methods of the class body are interpreted when they are asked for; EQUALITY - and with it membership in a list / set / dict, list.count / .index / .remove - is decided by
+    the class's own __eq__ (interpreted on the two objects; identity when the class defines none), exactly as Python decides `a == b` and `a in collection` for such objects. So
+    `corpus in corpora` is true iff DocumentCorpus.__eq__ says so for the attributes the two objects have AT THAT MOMENT - not iff they were built from equal arguments."""
+
+    def __init__(self, cls_node):
+        super().__init__()
+        self.cls = cls_node
+        self.methods = _class_functions(cls_node)
+
+    def is_a(self, name):
+        return name == self.cls.name or any(last_attr(b_) == name for b_ in self.cls.bases)
+
+    def __eq__(self, other):
+        f = self.methods.get("__eq__")
+        if f is None:
+            return self is other
+        r = Sim().apply(f, [other], {}, {params_of(f)[0]: self}, f"{self.cls.name}.__eq__")
+        if isinstance(r, Opaque):
+            raise CannotEval(f"{self.cls.name}.__eq__ yields the uninterpreted {r!r}"[:100])
+        return bool(r)
+
+    def __ne__(self, other):
+        return not self.__eq__(other)
+
+    def __hash__(self):
+        if "__eq__" not in self.methods:
+            return id(self)
+        if "__hash__" not in self.methods:
+            raise TypeError(f"unhashable type: '{self.cls.name}'")
+        return hash(self.cls.name)  # (consistent with any __eq__: equal objects hash alike; what is equal is decided by __eq__ alone)
+
+    def __repr__(self):
+        return f"<{self.cls.name} object {' '.join(f'{k_}={v_!r}' for k_, v_ in list(self.fields.items())[:3])}>"[:120]
+
+
+def _kind_of_function(f):
+    decos = {last_attr(d.func if isinstance(d, ast.Call) else d) for d in f.decorator_list}
+    if decos - {"classmethod", "staticmethod", "property", "cached_property"}:
+        return None
+    return "class" if "classmethod" in decos else ("static" if "staticmethod" in decos else ("property" if decos & {"property", "cached_property"} else "method"))
+
+
 class _LazySeq:
     """the value of map(<function reference>, ...): a one-pass iterator whose elements are computed when they are asked for (as Python's lazy map does) - a loop that rejects at
     element i never evaluates element i+1; list(...) / sorted(...) / a comprehension consume it whole."""
@@ -474,7 +544,7 @@ def _sim_builtins(sim):
             "enumerate": lambda x, start=0: [tuple(p) for p in enumerate(sim.items(x), start)], "zip": lambda *a: [tuple(p) for p in zip(*[sim.items(x) for x in a])],
             "range": lambda *a: list(range(*a)), "any": lambda x: any(sim.truth(v) for v in sim.items(x)), "all": lambda x: all(sim.truth(v) for v in sim.items(x)),
             "sum": sum, "min": min, "max": max, "bool": sim.truth, "str": str, "repr": repr, "int": int, "float": float, "abs": abs, "filter": lambda f, x: [v for v in sim.items(x) if sim.truth(f(v) if f else v)],
-            "map": lambda f, *a: [f(*p) for p in zip(*[sim.items(x) for x in a])], "iter": lambda x: iter(sim.items(x)), "next": next, "getattr": sim._getattr,
+            "map": lambda f, *a: [f(*p) for p in zip(*[sim.items(x) for x in a])], "iter": lambda x: iter(sim.items(x)), "next": next, "getattr": sim._getattr, "type": sim._type,
             "collections.Counter": _c.Counter, "Counter": _c.Counter, "collections.OrderedDict": _c.OrderedDict, "OrderedDict": _c.OrderedDict,
             "collections.defaultdict": _c.defaultdict, "defaultdict": _c.defaultdict, "collections.deque": _c.deque, "deque": _c.deque,
             "itertools.filterfalse": lambda f, x: [v for v in sim.items(x) if not sim.truth(f(v) if f else v)],
@@ -492,6 +562,7 @@ class Sim:
         self.steps = 0
         self.max_steps = max_steps
         self.depth = 0
+        self.max_depth = 4
         self.handling = []  # the exceptions whose handlers are being interpreted (for a bare `raise`)
         self.builtins = _sim_builtins(self)
 
@@ -509,6 +580,12 @@ class Sim:
             return v.model.iteration()
         if isinstance(v, Record) and isinstance(v.fields.get("__iter__"), list):
             return list(v.fields["__iter__"])  # an object of the model whose iteration the rule fixes (a schedule element yields its leaf tasks)
+        if isinstance(v, Inst) and "__iter__" in v.methods and _kind_of_function(v.methods["__iter__"]) == "method":
+            f_ = v.methods["__iter__"]  # an object of the model that defines its own iteration (Task yields itself, Parallel its tasks): that method interpreted
+            r_ = self.apply(f_, [], {}, {params_of(f_)[0]: v}, f"{v.cls.name}.__iter__")
+            if isinstance(r_, (Inst, Opaque)) or r_ is None:
+                raise CannotEval(f"{v.cls.name}.__iter__ yields {r_!r}"[:80])
+            return self.items(r_)
         if isinstance(v, (list, tuple, dict, str, _LazySeq)) or type(v).__name__ in ("Counter", "OrderedDict", "defaultdict", "deque", "dict_keys", "dict_values", "dict_items", "list_iterator"):
             return list(v)
         raise CannotEval(f"iteration over {type(v).__name__} {v!r}"[:80])
@@ -527,6 +604,11 @@ class Sim:
             if default:
                 return default[0]
         raise CannotEval(f"getattr({obj!r}, {name!r})"[:80])
+
+    def _type(self, obj):
+        if isinstance(obj, Inst):
+            return ClsVal(obj.cls)
+        raise CannotEval(f"type({obj!r})"[:80])
 
     def _tick(self):
         self.steps += 1
@@ -559,6 +641,9 @@ class Sim:
             v = self.ev(e.value, env)
             if isinstance(v, Record) and e.attr in v.fields:
                 return v.fields[e.attr]
+            if isinstance(v, Inst) and e.attr in v.methods and _kind_of_function(v.methods[e.attr]) == "property":
+                f_ = v.methods[e.attr]
+                return self.apply(f_, [], {}, {params_of(f_)[0]: v}, f"{v.cls.name}.{e.attr}")
             if isinstance(v, SelfObj):
                 return Opaque("attr", Opaque("free", "self"), e.attr)
             if isinstance(v, EnumCls):
@@ -804,6 +889,15 @@ class Sim:
                     return False
                 raise CannotEval(f"{u(e)[:50]}: type of an uninterpreted value")
             return isinstance(args[0], _SIM_TYPES[dotted(e.args[1])])
+        if d == "isinstance" and len(args) == 2 and "isinstance" not in env and (isinstance(args[1], ClsVal) or (
+                isinstance(args[0], Inst) and isinstance(args[1], Opaque) and not isinstance(args[1], (EnumCls, EnumMember)) and args[1].sig[0] in ("free", "attr") and isinstance(args[1].sig[-1], str))):
+            # isinstance(<object of the model>, type(<another one>)) / isinstance(<object of the model>, <Class> | <module>.<Class>): by the class the object was built from
+            cname = args[1].node.name if isinstance(args[1], ClsVal) else args[1].sig[-1]
+            if isinstance(args[0], Inst):
+                return args[0].cls is getattr(args[1], "node", None) or args[0].is_a(cname)
+            if isinstance(args[0], (Opaque, Record)):
+                raise CannotEval(f"{u(e)[:50]}: type of an uninterpreted value")
+            return False  # a plain value (text, number, None, container) is no object of that class
         if d == "isinstance" and len(args) == 2 and isinstance(args[1], EnumCls) and "isinstance" not in env:
             if isinstance(args[0], EnumMember):
                 return args[0].model is args[1].model
@@ -816,6 +910,9 @@ class Sim:
                 r = recv.model.call(self, recv, e.func.attr, args, kwargs, e)
                 if r is not NotImplemented:
                     return r
+            if isinstance(recv, Inst) and e.func.attr not in recv.fields and e.func.attr in recv.methods and _kind_of_function(recv.methods[e.func.attr]) == "method":
+                f_ = recv.methods[e.func.attr]
+                return self.apply(f_, args, kwargs, {params_of(f_)[0]: recv}, f"{recv.cls.name}.{e.func.attr}")
             if isinstance(recv, SelfObj) and e.func.attr not in recv.fields:
                 recv = Opaque("free", "self")
             if isinstance(recv, Opaque):
@@ -841,7 +938,7 @@ class Sim:
 
     def invoke(self, func, call, env, extra=None):
         """interpret the whole body of `func` for the arguments of `call` (evaluated in env); the value it returns (None on fall-through)."""
-        if self.depth >= 4:
+        if self.depth >= self.max_depth:
             raise CannotEval("call depth")
         args, kwargs = self.arguments(call, env)
         return self.apply(func, args, kwargs, extra, u(call)[:50])
@@ -871,7 +968,7 @@ class Sim:
         """interpret the whole body of `func` for argument VALUES; the first parameter is not filled from args when it is called self / cls or is bound in `extra`.
         tolerant (a constructor whose object is a Record): a top-level `self.<attr> = <expr>` that cannot be interpreted leaves that attribute uninterpreted (nothing is known
         about it, not even that it is not None) instead of giving up on the whole object."""
-        if self.depth >= 4:
+        if self.depth >= self.max_depth:
             raise CannotEval("call depth")
         a = func.args
         if a.vararg or a.kwarg:
@@ -1128,10 +1225,12 @@ class Sim:
             raise CannotEval(f"{u(s)[:50]}: {type(x).__name__}")
 
 
-def simulate(stmts, env, keep=None, hook=None, then=None, consts=None, enums=None):
+def simulate(stmts, env, keep=None, hook=None, then=None, consts=None, enums=None, max_depth=None):
     """interpret the (kept) statements on env. -> (kind, value, node): kind is fallthrough (value = `then` evaluated afterwards, if given) | return | raise | break | continue.
     CannotEval propagates (the caller reports 'not recognised')."""
     sim = Sim(hook, consts=consts, enums=enums)
+    if max_depth is not None:
+        sim.max_depth = max_depth  # (a run that enters the whole reader: challenge -> parallel element -> task -> operation -> constructor)
     try:
         sim.run(stmts, env, keep)
     except _Sig as s:
@@ -1301,12 +1400,17 @@ def run(chk):
         "exactly the documented mixes; duplicate task / challenge / operation / corpus names by interpreting the loop around the rejecting site (where no loop around it can be interpreted on "
         "its own - names counted or compared by size, while loops, flattened iteration - the whole function end to end) on collections with and without a repeated "
         "name; lazy map(...) / filter(...) over function references, functools.partial, local helper functions and pure helper functions of the module are interpreted like the "
-        "call written in place; default-challenge, ramp-up-on-parallel, completed-by and indices-vs-data-streams rules as value tables; the accounting object and the reserved names interpreted; every "
-        "rendered template registers its variables first (CFG, helpers followed); nested includes resolve relative to the including file. Extracted constants: documented "
+        "call written in place; objects of the model classes (DocumentCorpus / Documents / Operation / Task / Parallel / Challenge built by their own constructors) compare, and are "
+        "found in collections, by the __eq__ their class defines (interpreted); _create_challenges end to end on a track that mixes inline operations with later references by name "
+        "(every task has the operation the file says: the table of named operations is left as the operations block defined it); default-challenge, ramp-up-on-parallel, completed-by and indices-vs-data-streams rules as value tables; the accounting object and the reserved names interpreted; every "
+        "rendered template registers its variables first (CFG, helpers followed); nested includes resolve relative to the including file; render_template interpreted with Jinja's "
+        "environment / template objects modelled by the documented visibility of variables (render context > template-level globals > environment globals for the rendered template and "
+        "its includes; environment globals only for imported templates): the user's parameters reach every template, Rally's internal variables win in every template. Extracted constants: documented "
         "operation-parameter values validated against the item schema of the operations block; the include pattern of TemplateSource matched against the spellings of the collect helper "
         "call and of {% include %}; the helpers' Jinja source evaluated and parsed."
     )
-    chk.not_decided = "Jinja rendering semantics (incl. the text of the built-in macros), JSON-schema semantics, free-form operation parameters."
+    chk.not_decided = ("Jinja rendering semantics beyond the documented visibility of variables in included / imported templates (incl. the text of the built-in macros), "
+                       "JSON-schema semantics, free-form operation parameters.")
     SR = ldr.cls("TrackSpecificationReader")
     FR = ldr.cls("TrackFileReader")
     sr_methods = ldr.methods(SR)
@@ -1853,12 +1957,16 @@ def run(chk):
 
     def full_hook(observe, oracle=None, model=(), strict=()):
         """like loader_hook, and the constructors of the model classes in `model` [(class, __init__)] are interpreted too: the object is a Record with the attributes __init__ stores."""
-        base = loader_hook(observe=observe, oracle=oracle, strict=strict)
+        return modelled(loader_hook(observe=observe, oracle=oracle, strict=strict), model)
 
+    def modelled(base, model, oracle=None):
+        """the hook `base`, and before it: the functions of other modules whose answer the rule fixes (oracle), the constructors of the model classes in `model` interpreted."""
         def hook(e, env_, sim):
+            if oracle and last_attr(e.func) in oracle and not (isinstance(e.func, ast.Attribute) and isinstance(e.func.value, ast.Name) and e.func.value.id == "self"):
+                return oracle[last_attr(e.func)]
             for cls_node, init, *opts in model:
                 if last_attr(e.func) == cls_node.name and (dotted(e.func) or "").split(".")[0] in ("track", cls_node.name):
-                    obj = Record()
+                    obj = Inst(cls_node)  # (equality / membership of such objects: the class's own __eq__, see Inst)
                     if opts and opts[0] == "tolerant":
                         args_, kwargs_ = sim.arguments(e, env_)
                         sim.apply(init, args_, kwargs_, {params_of(init)[0]: obj}, u(e)[:50], tolerant=True)
@@ -2419,7 +2527,7 @@ def run(chk):
                     out.append(n)
         return out
 
-    def loop_verdict(site_stmt, L, loops, f, cases, expand=()):
+    def loop_verdict(site_stmt, L, loops, f, cases, expand=(), hook_of=None):
         """interprets the loop L (sliced to what decides whether site_stmt is reached) with what initialises its state, once per case (label, make_input, must_reject).
         -> [(label, must_reject, outcome kind)]; CannotEval if the slice cannot be interpreted."""
         from sa.cfg import guards as _guards
@@ -2466,7 +2574,8 @@ def run(chk):
             try:
                 for label, make, must in cases:
                     value = make()
-                    kind, _, node = simulate(pre + [L], {n: value for n in bound}, keep_b, hook=loader_hook(expand=set(expand), override={override_id: value} if override_id else None))
+                    hk_ = loader_hook(expand=set(expand), override={override_id: value} if override_id else None)
+                    kind, _, node = simulate(pre + [L], {n: value for n in bound}, keep_b, hook=hook_of(hk_) if hook_of is not None else hk_, consts=track_consts if hook_of is not None else None)
                     if kind == "error":
                         raise CannotEval(f"on the collection `{label}` the interpretation ends in a Python error at line {getattr(node, 'lineno', '?')}")
                     rows.append((label, must, kind))
@@ -2477,7 +2586,7 @@ def run(chk):
             raise CannotEval("; ".join(errors)[:200])
         return out
 
-    def dedupe(func, words, hint, cases, stop=(), whole=None):
+    def dedupe(func, words, hint, cases, stop=(), whole=None, hook_of=None):
         """duplicate names are rejected — decided on VALUES: the loop around the rejecting site is interpreted on a collection without and with a repeated name (cases); it must
         run through on the former and reject on the latter, whatever container / membership idiom it uses (set + in, dict, setdefault, Counter, comparing lengths, ...).
         Where no loop around the site can be interpreted (no loop at all: the names are counted / compared by size first; a while loop; a flattened iteration), `whole(collection)`
@@ -2504,7 +2613,7 @@ def run(chk):
                 loops = [a for a in source.ancestors(st) if isinstance(a, ast.For) and source.enclosing_func(a) is f]
             for L in reversed(loops):  # outermost first
                 try:
-                    for rows_ in loop_verdict(st, L, loops, f, cases, expand):
+                    for rows_ in loop_verdict(st, L, loops, f, cases, expand, hook_of):
                         verdicts.append((site, L, f, rows_))
                 except CannotEval as e:
                     errors.append(f"loop at line {L.lineno}: {e}")
@@ -2550,6 +2659,85 @@ def run(chk):
     CH = trk.cls("Challenge")
     challenge_model = [(CH, method(trk, CH, "__init__"), "tolerant")]
 
+    # A reference by name resolves to the operation the file defines under that name. Decided on VALUES, end to end: _create_challenges is interpreted as a whole with the
+    # reader's own methods entered (parse_operations / parse_operation / parse_parallel / parse_task) and Operation / Task / Parallel / Challenge built by their constructors,
+    # on a track whose schedule mixes INLINE operations (one named like an entry of the operations block, one named like a built-in operation type, one inside a parallel
+    # element) with later tasks - in the same schedule, inside the parallel element and in a second challenge - that refer to those names as plain strings. The table of named
+    # operations is shared by all tasks of all challenges: whatever is parsed on the way must leave it as the operations block defined it.
+    OPC, PAC = trk.cls("Operation"), trk.cls("Parallel")
+    reader_model = [(OPC, method(trk, OPC, "__init__")), (TK, tinit), (PAC, method(trk, PAC, "__init__"))] + challenge_model
+    documented_names = {hyphenate(m): m for m in members}
+
+    def references_run():
+        blk1, blk2, inl1, inl2, inl3 = 5000, "logs-from-the-block", 1111, 2222, "logs-inline"
+        spec = {
+            "operations": [{"name": "op-1", "operation-type": "bulk", "bulk-size": blk1}, {"name": "op-2", "operation-type": "search", "index": blk2}],
+            "challenges": [
+                {"name": "c1", "default": True, "schedule": [
+                    {"name": "t-inline-1", "operation": {"name": "op-1", "operation-type": "bulk", "bulk-size": inl1}},
+                    {"name": "t-inline-2", "operation": {"name": "force-merge", "operation-type": "force-merge", "max-num-segments": inl2}},
+                    {"name": "t-ref-1", "operation": "op-1"},
+                    {"parallel": {"tasks": [{"name": "t-inline-3", "operation": {"name": "op-2", "operation-type": "search", "index": inl3}}, {"name": "t-ref-2", "operation": "op-2"}]}},
+                ]},
+                {"name": "c2", "schedule": [{"name": "t-ref-3", "operation": "op-1"}, {"name": "t-ref-4", "operation": "force-merge"}, {"name": "t-ref-5", "operation": "op-2"}]},
+            ],
+        }
+        # (task name, what the file says its operation is, a value that only that operation carries, values that only OTHER operations of that name carry)
+        expect = [("t-inline-1", "the inline operation written in the task", inl1, [blk1]), ("t-inline-2", "the inline operation written in the task", inl2, []),
+                  ("t-inline-3", "the inline operation written in the task", inl3, [blk2]),
+                  ("t-ref-1", "`op-1` of the operations block", blk1, [inl1]), ("t-ref-2", "`op-2` of the operations block", blk2, [inl3]), ("t-ref-3", "`op-1` of the operations block", blk1, [inl1]),
+                  ("t-ref-4", "the parameter-less built-in operation `force-merge`", "force-merge", [inl2]), ("t-ref-5", "`op-2` of the operations block", blk2, [inl3])]
+        base = full_hook(set(), model=reader_model, strict=set(sr_methods))
+
+        def hook(e, env_, sim):
+            if last_attr(e.func) == fh.name and "OperationType" in (dotted(e.func) or ""):
+                # the registry answers as O10.1 establishes: the member of the documented name, KeyError for any other text
+                args_, _ = sim.arguments(e, env_)
+                if len(args_) == 1 and isinstance(args_[0], str) and ot_model is not None:
+                    if args_[0] in documented_names:
+                        return ot_model.members[documented_names[args_[0]]]
+                    raise _Sig("raise", None, e, "KeyError")
+            return base(e, env_, sim)
+
+        kind, val, node = simulate(cc.body, call_env(cc, {params_of(cc)[1]: spec, "self": SelfObj()}), None, hook, consts=track_consts, enums=ot_enums, max_depth=9)
+        if kind in ("raise", "error"):
+            return kind, node, []
+        if kind != "return":
+            raise CannotEval(f"ends in `{kind}` at line {getattr(node, 'lineno', '?')}")
+        tasks, todo, seen_ = {}, [val], set()
+        while todo:
+            x = todo.pop()
+            if id(x) in seen_:
+                continue
+            seen_.add(id(x))
+            if isinstance(x, Inst) and x.cls is TK and isinstance(x.fields.get("name"), str):
+                tasks[x.fields["name"]] = x
+            elif isinstance(x, Record):
+                todo += [v_ for v_ in x.fields.values() if isinstance(v_, (Record, list, tuple))]
+            elif isinstance(x, (list, tuple)):
+                todo += list(x)
+        wrong = []
+        for tname, what, own, foreign in expect:
+            if tname not in tasks or not isinstance(tasks[tname].fields.get("operation"), Record):
+                raise CannotEval(f"the task `{tname}` (or its operation) is not among the objects the interpreted {cc.name} returns")
+            op_ = tasks[tname].fields["operation"]
+            if _has_opaque(op_.fields.get("name")) or _has_opaque(op_.fields.get("params")):
+                raise CannotEval(f"the operation of `{tname}` has uninterpreted attributes")
+            if not mentions(op_, [own]) or any(mentions(op_, [x_]) for x_ in foreign):
+                wrong.append(f"task `{tname}`: the file says {what}, the loaded task has the operation `{op_.fields.get('name')}` with the parameters {op_.fields.get('params')!r}"[:200])
+        return kind, node, wrong
+
+    try:
+        kind_, node_, wrong_ = references_run()
+        chk.ob("O10.2", "a task that refers to an operation by name gets the operation the operations block defines under that name (a bare built-in type name: the parameter-less "
+               "operation of that type), whatever inline operations the tasks parsed before it define - in the same schedule, in a parallel element or in an earlier challenge", not wrong_,
+               tctor[0],
+               (f"{cc.name} interpreted end to end on a track with 2 named, 3 inline operations and 5 references by name: " + ("every task has the operation the file says" if kind_ == "return" else
+                f"the track is rejected ({kind_} at line {getattr(node_, 'lineno', '?')})")) if not wrong_ else ("; ".join(wrong_) + " - the table of named operations was changed while the schedule was parsed")[:400],
+               key=f"{_L}:{SR.name}:named-operation-references")
+    except CannotEval as e:
+        chk.unknown("O10.2", f"{cc.name} cannot be interpreted end to end (operations block, inline operations and references by name): {e}"[:300], cc)
+
     def whole_tasks(coll):
         """_create_challenges on one challenge whose schedule has a plain task per one-element group and a parallel element per larger group; what parse_task / parse_parallel are
         CALLED WITH decides the element they yield: an object that iterates over its leaf tasks (Task yields itself, Parallel its tasks), named as the file says."""
@@ -2580,10 +2768,25 @@ def run(chk):
         po = method(ldr, SR, "parse_operations")
         return outcome_of(po, {params_of(po)[1]: [{**el, "operation-type": "bulk"} for el in coll]}, full_hook(observe_all - {po.name}))
 
+    # the corpus and its document sets are objects of the model (DocumentCorpus / Documents built by their own constructors): a duplicate that is looked for by comparing or
+    # looking up OBJECTS is decided by the equality those classes define, on the attributes the objects have at that moment
+    DCo = trk.cls("DocumentCorpus")
+    corpus_model = [(DCo, method(trk, DCo, "__init__")), (DC, DI)]
+
+    def corpus_cases():
+        """corpora as a schema-valid track writes them: each has a document set (minItems 1), and two corpora that share a NAME differ in everything else (identical entries are
+        what the schema's uniqueItems already refuses) - the documented rule is about the name alone."""
+        def c(name, n_):
+            return {"name": name, "meta": {"variant": n_}, "documents": [{"source-file": f"docs-{n_}.json.bz2", "document-count": 1000 + n_, "target-index": "idx"}]}
+
+        return [("three different names", lambda: [c("aa", 1), c("bb", 2), c("cc", 3)], False), ("the first name again as the third, with other documents", lambda: [c("aa", 1), c("bb", 2), c("aa", 3)], True),
+                ("the same name twice in a row, with other documents", lambda: [c("bb", 1), c("bb", 2)], True), ("the same corpus written twice", lambda: [c("aa", 1), c("aa", 1)], True),
+                ("one corpus", lambda: [c("aa", 1)], False)]
+
     def whole_corpora(coll):
         docs = [{"source-file": "docs-marker.json.bz2", "document-count": 1001, "target-index": "idx"}]
-        return outcome_of(cr, {params_of(cr)[1]: [{**el, "documents": [dict(d_) for d_ in docs]} for el in coll], params_of(cr)[2]: [], params_of(cr)[3]: []},
-                          full_hook(observe_all - {cr.name}, oracle={"is_archive": True}), consts=track_consts)
+        return outcome_of(cr, {params_of(cr)[1]: [{"documents": [dict(d_) for d_ in docs], **el} for el in coll], params_of(cr)[2]: [], params_of(cr)[3]: []},
+                          full_hook(observe_all - {cr.name}, oracle={"is_archive": True}, model=corpus_model), consts=track_consts)
 
     found = dedupe(cc, ("multiple tasks with the name", "unique"), "task", task_cases(), stop=roles, whole=whole_tasks)
     if found is not None and found[1] is None:
@@ -2620,7 +2823,7 @@ def run(chk):
                    f"checked: `{short(src, 40)}`; handed to the challenge: `{sched_local}`" + ("" if list(val) == probe else f" — for a schedule of three elements only {len(val)} of them are checked / in another order"))
     dedupe(cc, ("duplicate", "challenge"), "challenge", flat_cases(), stop=roles, whole=whole_challenges)
     dedupe(method(ldr, SR, "parse_operations"), ("duplicate", "operation"), "operation", flat_cases(), stop=roles, whole=whole_operations)
-    dedupe(cr, ("duplicate", "corpus"), "corpus", flat_cases(), stop=roles, whole=whole_corpora)
+    dedupe(cr, ("duplicate", "corpus"), "corpus", corpus_cases(), stop=roles, whole=whole_corpora, hook_of=lambda base_: modelled(base_, corpus_model, oracle={"is_archive": True}))
     # default challenge rules — value table: _create_challenges is interpreted as a whole (helpers of the class entered, Challenge(...) / parse_* results uninterpreted) on a
     # concrete track specification per row (schedules left empty: they play no part here); it either rejects or returns the challenges
     def challenges_outcome(specs):
@@ -3158,6 +3361,76 @@ def run(chk):
                 todo |= _loads(rt_defs[nm_])
         return names
 
+    # Decided on VALUES first: render_template is interpreted with Jinja's objects modelled by what Jinja documents about them - an Environment has the namespaces `globals`
+    # (pre-filled with Jinja's default names), `filters`, `tests`; a template created from it (from_string / get_template, optionally with template-level globals) is rendered
+    # with a context (render / generate / stream: dict(*args, **kwargs)). Which variables a template SEES (Jinja API, "The Global Namespace" / "Import Context Behavior"):
+    #   the rendered template and everything it {% include %}s: the render context, then the template-level globals, then the environment's globals;
+    #   a template it {% import %}s / {% from ... import %}s (without context, the default): the environment's globals ONLY.
+    # So a track parameter reaches the macros of an imported part only through the environment's globals, and an internal variable wins only if no channel that shadows the
+    # environment's globals (render context, template-level globals) carries the user's value of that name. Nothing is rendered; only the statements of render_template run
+    # in the interpreter of this module.
+    try:
+        import jinja2.defaults as _jd
+        jinja_default_globals = sorted(_jd.DEFAULT_NAMESPACE)
+    except (ImportError, AttributeError):
+        jinja_default_globals = ["range", "dict", "lipsum", "cycler", "joiner", "namespace"]
+    _MISSING = Opaque("input", "undefined")
+
+    def jinja_run(vals):
+        """-> [what each rendering sees: {"context", "template", "globals", "filters"}] for render_template called with the parameter values `vals`."""
+        renders = []
+
+        def kind_of(v):
+            return v.fields.get("__jinja__") if isinstance(v, Record) else None
+
+        def hook(e, env_, sim):
+            f = e.func
+            la = last_attr(f) or ""
+            if la.endswith("Environment") and (dotted(f) or "").split(".")[0] in ("jinja2", la) and la not in env_:
+                # (its arguments - loaders, options - decide where templates are found and how they are parsed, not which variables they see)
+                return Record(__jinja__="environment", globals={n_: Opaque("input", f"Jinja's default global `{n_}`") for n_ in jinja_default_globals}, filters={}, tests={}, policies={})
+            if isinstance(f, ast.Attribute) and la in ("from_string", "get_template", "select_template", "get_or_select_template"):
+                recv = sim.ev(f.value, env_)
+                if kind_of(recv) == "environment":
+                    args_, kwargs_ = sim.arguments(e, env_)
+                    pos = 1 if la == "from_string" else 2  # from_string(source, globals=None, ...) / get_template(name, parent=None, globals=None)
+                    g_ = kwargs_.get("globals", args_[pos] if len(args_) > pos else None)
+                    if g_ is not None and not isinstance(g_, dict):
+                        raise CannotEval(f"{u(e)[:50]}: template-level globals that are no mapping")
+                    return Record(__jinja__="template", environment=recv, globals=dict(g_ or {}))
+            if isinstance(f, ast.Attribute) and la in ("render", "generate", "stream"):
+                recv = sim.ev(f.value, env_)
+                if kind_of(recv) == "template":
+                    args_, kwargs_ = sim.arguments(e, env_)
+                    ctx = {}
+                    for a_ in args_ + [kwargs_]:  # dict(*args, **kwargs)
+                        if not isinstance(a_, dict):
+                            raise CannotEval(f"{u(e)[:50]}: a render context that is no mapping")
+                        ctx.update(a_)
+                    j_ = recv.fields["environment"]
+                    if not all(isinstance(j_.fields.get(ns_), dict) for ns_ in ("globals", "filters")):
+                        raise CannotEval("the namespaces of the Jinja environment are no mappings any more")
+                    renders.append({"context": ctx, "template": dict(recv.fields["globals"]), "globals": dict(j_.fields["globals"]), "filters": dict(j_.fields["filters"])})
+                    return Opaque("input", "the rendered text")
+            if isinstance(f, ast.Name) and f.id in mod_funcs and f.id not in env_ and f.id != rt.name:
+                saved = sim.steps
+                try:
+                    return sim.invoke(mod_funcs[f.id], e, env_)  # an extracted helper of the module (e.g. one that builds the environment)
+                except CannotEval:
+                    sim.steps = saved
+            return NotImplemented
+
+        kind, _, node = simulate(rt.body, call_env(rt, vals), None, hook)
+        if kind != "return" or not renders:
+            raise CannotEval(f"interpreting {rt.name} ends in `{kind}` at line {getattr(node, 'lineno', '?')} after {len(renders)} rendering(s) of a template created from a jinja2 environment")
+        return renders
+
+    def seen_by(r_, name, where):
+        for ns_ in (("context", "template", "globals") if where == "main" else ("globals",)):
+            if name in r_[ns_]:
+                return r_[ns_][name]
+        return _MISSING
+
     writes = []
     for n in walk_body(rt):
         if isinstance(n, ast.Assign) and len(n.targets) == 1 and isinstance(n.targets[0], ast.Subscript):
@@ -3180,15 +3453,55 @@ def run(chk):
             if any((isinstance(x, ast.Call) and last_attr(x.func) == "default_internal_template_vars") or
                    (isinstance(x, ast.Dict) and any(k_ is not None and (source.is_const(k_, "globals") or source.is_const(k_, "filters")) for k_ in x.keys)) for x in ast.walk(a_)):
                 internal_params.add(p_)
+    # roles of the parameters: the source is the first one; the internal variables the one located above; the loader the one handed to the environment's constructor; the user's
+    # variables the remaining one
+    loader_params = {n_ for c in walk_body(rt) if isinstance(c, ast.Call) and (last_attr(c.func) or "").endswith("Environment") for n_ in _loads(c)} & set(rt_params)
+    user_params = [p_ for p_ in rt_params[1:] if p_ not in internal_params and p_ not in loader_params]
+    jinja_seen, jinja_why = None, f"the roles of its parameters were not located (internal variables: {sorted(internal_params)}, loader: {sorted(loader_params)}, user variables: {user_params})"
+    if len(internal_params) == 1 and len(user_params) == 1:
+        try:
+            jinja_seen = jinja_run({rt_params[0]: "template-source-marker", user_params[0]: {"bulk_size": 5000, "now": "the user's `now`"},
+                                    next(iter(internal_params)): {"globals": {"now": "Rally's `now`", "glob": "Rally's `glob`"}, "filters": {"days_ago": "Rally's `days_ago`"}},
+                                    **{p_: Opaque("input", "the track's loader") for p_ in loader_params}})
+        except CannotEval as e:
+            jinja_why = str(e)
+    if jinja_seen is not None:
+        got_ = [(seen_by(r_, "bulk_size", "main"), seen_by(r_, "bulk_size", "imported")) for r_ in jinja_seen]
+        ok = all(a_ == 5000 and b_ == 5000 for a_, b_ in got_)
+        how_ = sorted({ns_ for r_ in jinja_seen for ns_ in ("context", "template", "globals") if "bulk_size" in r_[ns_]})
+        names_ = {"context": "the render context of the top-level template", "template": "template-level globals of the top-level template", "globals": "the environment's globals"}
+        chk.ob("O10.6", "track parameters are substituted in EVERY template of the rendering: the track file and its included parts, and the templates it imports (their macros see the "
+               "environment's globals only)", ok, rt,
+               f"render_template interpreted on the user parameter bulk_size=5000: handed to Jinja as {[names_[x_] for x_ in how_] or 'nothing'}" + ("" if ok else
+               f"; the track file / an imported template see {['nothing' if x_ is _MISSING else x_ for x_ in got_[0]]} - {{% import %}} / {{% from ... import %}} (without context) pass on the environment's "
+               "globals only, so macros of an imported part silently render with their default(...) values while the parameter counts as used")[:420],
+               key=f"{_L}:render_template:user-variables-visible-in-imported-templates")
+
     iv = [n for n, o in writes if o & internal_params]
     uv = [n for n, o in writes if o and not (o & internal_params)]
-    if len(internal_params) != 1 or not iv or not uv:
+    if jinja_seen is not None:
+        # decided on the values above: in every template of the rendering the name `now` (given by the user AND by Rally) and the filter `days_ago` are Rally's
+        got_ = [(seen_by(r_, "now", "main"), seen_by(r_, "now", "imported"), r_["filters"].get("days_ago", _MISSING)) for r_ in jinja_seen]
+        ok = all(g_ == ("Rally's `now`", "Rally's `now`", "Rally's `days_ago`") for g_ in got_)
+        chk.ob("O10.6", "internal template variables are applied after (and so win over) user variables", ok, iv[0] if iv else rt,
+               "" if ok else f"with a track parameter `now` given by the user the track file / an imported template / the filter `days_ago` resolve to {['nothing' if x_ is _MISSING else x_ for x_ in got_[0]]}: "
+               "a track parameter named like an internal variable overrides it (or Rally's variable is not installed)")
+    elif len(internal_params) != 1 or not iv or not uv:
         chk.unknown("O10.6", f"the statements of render_template that store the user's and Rally's internal variables in the Jinja environment were not both located "
                     f"(internal-variables parameter: {sorted(internal_params)}; {len(iv)} internal / {len(uv)} user write(s) of {len(writes)})", rt)
     else:
         late = [(short(a, 40), short(b, 40)) for a in iv for b in uv if g.path_exists(g.node_of(a), g.node_of(b))]
         chk.ob("O10.6", "internal template variables are applied after (and so win over) user variables", not late, iv[0],
                "" if not late else f"after `{late[0][0]}` the user's variables are still written by `{late[0][1]}`: a track parameter named like an internal variable overrides it")
+        # (render_template could not be interpreted on values: {jinja_why}) the user's variables are stored in a namespace of the environment - is it its globals?
+        ns_ = {(t_.value.attr if isinstance(t_.value, ast.Attribute) else None) for n_ in uv
+               for t_ in [n_.targets[0] if isinstance(n_, ast.Assign) else n_.value.func] if isinstance(t_, (ast.Subscript, ast.Attribute))}
+        if ns_ == {"globals"}:
+            chk.ob("O10.6", "track parameters are substituted in EVERY template of the rendering: the track file and its included parts, and the templates it imports (their macros see the "
+                   "environment's globals only)", True, uv[0], f"the user's variables are stored in `{env_local}.globals` ({len(uv)} statement(s))",
+                   key=f"{_L}:render_template:user-variables-visible-in-imported-templates")
+        else:
+            chk.unknown("O10.6", f"render_template cannot be interpreted on representative variables ({jinja_why[:120]}) and the namespace its {len(uv)} user write(s) store into is not recognised", uv[0])
 
 
 from sa.selftest import V  # noqa: E402
@@ -3228,6 +3541,11 @@ _SUBTASKS_OLD = ("        tasks = []\n        for task in self._r(ops_spec, \"ta
                  "                    default_warmup_time_period,\n                    default_time_period,\n                    default_ramp_up_time_period,\n"
                  "                    completed_by,\n                )\n            )\n")
 _COUNT_OLD = "count_defined = len(list(filter(lambda e: e is not None, [schedule, challenge, challenges])))"
+_USER_GLOBALS = "    if template_vars:\n        for k, v in template_vars.items():\n            env.globals[k] = v\n    # ensure that user variables never override our internal variables\n"
+_RENDER_OLD = "    template = env.from_string(template_source)\n    return template.render()\n"
+_INLINE_OP = "            op = self.parse_operation(op_spec, error_ctx=\"inline operation in challenge %s\" % challenge_name)\n"
+_CORPUS_DEDUPE = ("            if name in known_corpora_names:\n                self._error(\"Duplicate document corpus name [%s].\" % name)\n            known_corpora_names.add(name)\n")
+_CORPUS_CTOR = "            corpus = track.DocumentCorpus(name=name, meta_data=meta_data)\n"
 
 VARIANTS = [
     V("one registry arm dropped", "break", _T, "        elif v == \"bulk\":\n            return OperationType.Bulk\n", "", "O10.1"),
@@ -3641,4 +3959,41 @@ VARIANTS = [
     V("include-in-reporting default set with dict.setdefault", "keep", _L,
       "            if \"include-in-reporting\" not in params:\n                params[\"include-in-reporting\"] = not op.admin_op\n",
       "            params.setdefault(\"include-in-reporting\", not op.admin_op)\n"),
+    # -- seeding round 5 -------------------------------------------------------------------------------------------------------------------------------------------
+    # m13: the user's track parameters must reach every template of the rendering (imported macro files see the environment's globals only)
+    [V("seed m13: track parameters handed to Jinja as the render context instead of the environment's globals", "break", _L, _USER_GLOBALS, "", "O10.6"),
+     V("", "break", _L, _RENDER_OLD, "    template = env.from_string(template_source)\n    # ensure that user variables never override our internal variables\n"
+       "    user_vars = {k: v for k, v in template_vars.items() if k not in env.globals} if template_vars else {}\n    return template.render(user_vars)\n")],
+    [V("track parameters installed as template-level globals of the track file only", "break", _L, _USER_GLOBALS, "", "O10.6"),
+     V("", "break", _L, _RENDER_OLD, "    template = env.from_string(template_source, globals=template_vars)\n    return template.render()\n")],
+    [V("track parameters spread into render(**...)", "break", _L, _USER_GLOBALS, "", "O10.6"),
+     V("", "break", _L, _RENDER_OLD, "    return env.from_string(template_source).render(**(template_vars or {}))\n")],
+    V("track parameters merged into a new globals mapping that is assigned back to the environment", "keep", _L,
+      "        for k, v in template_vars.items():\n            env.globals[k] = v\n", "        env.globals = {**env.globals, **template_vars}\n"),
+    V("the template is created and rendered in one expression, through generate()", "keep", _L, _RENDER_OLD,
+      "    return \"\".join(env.from_string(template_source).generate())\n"),
+    # m14: the table of named operations is what the operations block defines, whatever the schedule contains
+    V("seed m14: inline operations are stored in the table of named operations", "break", _L, _INLINE_OP, _INLINE_OP + "            ops[op.name] = op\n", "O10.2"),
+    V("inline operations are stored in the table of named operations unless the name is taken (shadows built-in types)", "break", _L, _INLINE_OP,
+      _INLINE_OP + "            ops.setdefault(op.name, op)\n", "O10.2"),
+    V("an inline operation named like an entry of the operations block is replaced by that entry", "break", _L,
+      "        if isinstance(op_spec, str) and op_spec in ops:\n            op = ops[op_spec]\n",
+      "        op_ref = op_spec if isinstance(op_spec, str) else op_spec.get(\"name\")\n        if op_ref in ops:\n            op = ops[op_ref]\n", "O10.2"),
+    V("named operation looked up with dict.get", "keep", _L, "        if isinstance(op_spec, str) and op_spec in ops:\n            op = ops[op_spec]\n",
+      "        named = ops.get(op_spec) if isinstance(op_spec, str) else None\n        if named is not None:\n            op = named\n"),
+    V("bare built-in operation names (and only those) parsed once and shared", "keep", _L, _INLINE_OP,
+      _INLINE_OP + "            if isinstance(op_spec, str):\n                ops[op_spec] = op\n"),
+    # m15: duplicate corpora are duplicates by NAME, whatever else the two entries say
+    [V("seed m15: duplicate corpus names looked for by comparing corpus objects", "break", _L, _CORPUS_DEDUPE, "", "O10.5"),
+     V("", "break", _L, _CORPUS_CTOR, _CORPUS_CTOR + "            if corpus in document_corpora:\n                self._error(\"Duplicate document corpus name [%s].\" % name)\n")],
+    [V("duplicate corpus names looked for with list.count over the corpus objects", "break", _L, _CORPUS_DEDUPE, "", "O10.5"),
+     V("", "break", _L, _CORPUS_CTOR, _CORPUS_CTOR + "            if document_corpora.count(corpus) > 0:\n                self._error(\"Duplicate document corpus name [%s].\" % name)\n")],
+    [V("duplicate corpus names looked for among the (name, meta) pairs of the corpora built so far", "break", _L, _CORPUS_DEDUPE, "", "O10.5"),
+     V("", "break", _L, _CORPUS_CTOR, _CORPUS_CTOR + "            if (corpus.name, corpus.meta_data) in [(c.name, c.meta_data) for c in document_corpora]:\n"
+       "                self._error(\"Duplicate document corpus name [%s].\" % name)\n")],
+    [V("duplicate corpus names looked for among the names of the corpus objects built so far", "keep", _L, _CORPUS_DEDUPE, ""),
+     V("", "keep", _L, _CORPUS_CTOR, _CORPUS_CTOR + "            if corpus.name in [c.name for c in document_corpora]:\n                self._error(\"Duplicate document corpus name [%s].\" % name)\n")],
+    [V("duplicate corpus names looked for with any(...) over the corpus objects built so far, before the new one is built", "keep", _L, _CORPUS_DEDUPE,
+       "            if any(c.name == name for c in document_corpora):\n                self._error(\"Duplicate document corpus name [%s].\" % name)\n"),
+     V("", "keep", _L, "        known_corpora_names = set()\n", "")],
 ]
